@@ -93,6 +93,12 @@ func Alphabet(tier string) []Tx {
 				PromiseCommand: &t_aio.CreatePromiseCommand{Id: p, Param: val("pt"), Timeout: 10, Tags: map[string]string{"resonate:invoke": "x"}, CreatedOn: 1},
 				TaskCommand:    &t_aio.CreateTaskCommand{Id: "__invoke:" + p, Recv: []byte(`"x"`), Mesg: &message.Mesg{Type: message.Invoke, Root: p, Leaf: p}, Timeout: 10, State: task.Init, CreatedOn: 1}}}
 		}))
+		// the same with a task id that a separately created task may already own
+		a = append(a, one("CreatePromiseAndTask("+p+",task=t1)", true, func() *t_aio.Command {
+			return &t_aio.Command{Kind: t_aio.CreatePromiseAndTask, CreatePromiseAndTask: &t_aio.CreatePromiseAndTaskCommand{
+				PromiseCommand: &t_aio.CreatePromiseCommand{Id: p, Param: val("pt"), Timeout: 10, Tags: map[string]string{"resonate:invoke": "x"}, CreatedOn: 1},
+				TaskCommand:    &t_aio.CreateTaskCommand{Id: "t1", Recv: []byte(`"y"`), Mesg: &message.Mesg{Type: message.Invoke, Root: p, Leaf: p}, Timeout: 11, State: task.Init, CreatedOn: 1}}}
+		}))
 	}
 	for _, t := range []int64{0, 5, 10} {
 		for _, lim := range []int{1, 2} {
